@@ -125,6 +125,8 @@ def find_powershell_strings(data: bytes) -> list[Node]:
         if enc:
             if len(deobfuscated.split()) < 2:
                 continue  # nothing separates the invocation from its argument once carets are removed
+            if not re.search(ENC_RE + rb"\Z", deobfuscated):
+                continue  # a line continuation glued the switch to its argument or to another switch
             pwsh_invocation, encoded = deobfuscated.rsplit(maxsplit=1)
             encoded = encoded.strip(b"'\"")
             if len(encoded) % 4 or b"^" in encoded:
